@@ -1137,7 +1137,11 @@ struct StrSys {
             ssize_t const r = read(fd, c, n);
             if (r == 0) { return false; }
             if (r < 0) {
-                if (errno == EINTR) { continue; }
+                if (errno == EINTR) {
+                    // waiting for the worker is progress as far as the hang detector of this process is concerned
+                    mc::traps().guard_entries = mc::traps().guard_entries + 1;
+                    continue;
+                }
                 return false;
             }
             c += r;
@@ -1167,9 +1171,14 @@ struct StrSys {
             return;
         }
         // ---- zygote
+        // (this process is a copy of one that runs inside the job's outer guard: forget that guard, otherwise
+        // the hang detector of an idle worker would jump into the copied frames of mc::Main::run)
+        mc::traps().jb = nullptr;
         close(req[1]);
         close(res[0]);
+#if !defined(MC_FLAVOUR_SAN)
         if (int const nul = open("/dev/null", O_WRONLY); nul >= 0) { dup2(nul, 2); } // the workers' MC-FATAL lines are expected
+#endif
         signal(SIGPIPE, SIG_DFL);
         // The zygote only supervises: it keeps one worker alive.  The worker serves requests until a
         // call traps or breaks an invariant (then it exits and a fresh one takes over); when a worker
@@ -1188,6 +1197,7 @@ struct StrSys {
 
     [[noreturn]] void worker(int reqfd, int resfd)
     {
+        mc::traps().jb         = nullptr;
         mc::traps().hang_ticks = 10;
         mc::install_signal_handlers(); // interval timers are not inherited
         capture = true;
@@ -1207,7 +1217,8 @@ struct StrSys {
             if (has_partner && (!read_all(reqfd, pobj, sizeof(S)) || !read_all(reqfd, pchars.data(), pchars.size() * sizeof(Char)))) { std::_Exit(42); }
             if (!read_all(reqfd, acts.data(), acts.size() * sizeof(Action))) { std::_Exit(42); }
             for (std::size_t k = 0; k < acts.size(); ++k) {
-                slot = FailSlot{};
+                slot            = FailSlot{};
+                auto const san0 = mc::san_hits();
                 mc::Trap const t = mc::guarded([&] {
                     State copy(0xAA);
                     std::memcpy(static_cast<void*>(copy.v), static_cast<void const*>(obj), sizeof(S));
@@ -1234,6 +1245,13 @@ struct StrSys {
                     std::snprintf(rc.prop, sizeof rc.prop, "%s", slot.prop.c_str());
                     std::snprintf(rc.cls, sizeof rc.cls, "%s", slot.cls.c_str());
                     std::snprintf(rc.detail, sizeof rc.detail, "%s", slot.detail.c_str());
+                } else if (t == mc::Trap::none && mc::san_hits() != san0) {
+                    // sanitizer flavour: the report text is in the job log (the worker shares stderr)
+                    rc.status = 7;
+                    rc.oob    = 1;
+                    std::snprintf(rc.prop, sizeof rc.prop, "C02");
+                    std::snprintf(rc.cls, sizeof rc.cls, "sanitizer-report");
+                    std::snprintf(rc.detail, sizeof rc.detail, "ASan/UBSan reported during this valid call (see job log)");
                 }
                 zy_shm->done = std::uint32_t(k + 1);
                 if (rc.oob != 0) { std::_Exit(0); } // memory may be damaged: a fresh worker continues
